@@ -48,10 +48,34 @@ def repo_hash():
         for f in sorted(files):
             with open(os.path.join(root, f), "rb") as fh:
                 h.update(fh.read())
+    # the generators / drivers shape the corpora as well
+    libdir = os.path.join(VERIF, "lib")
+    for f in sorted(os.listdir(libdir)):
+        if f.endswith(".py"):
+            with open(os.path.join(libdir, f), "rb") as fh:
+                h.update(fh.read())
     return h.hexdigest()[:16]
 
 
+def prune_cache(keep=5):
+    """Keep only the most recent corpus caches (one directory per content hash)."""
+    root = os.path.join(WORK, "cache")
+    if not os.path.isdir(root):
+        return
+    ds = [os.path.join(root, d) for d in os.listdir(root) if not d.startswith("mc_")]
+    ds.sort(key=lambda p: os.path.getmtime(p), reverse=True)
+    import shutil
+    for p in ds[keep:]:
+        shutil.rmtree(p, ignore_errors=True)
+
+
+_pruned = [False]
+
+
 def cache_dir(*parts):
+    if not _pruned[0]:
+        _pruned[0] = True
+        prune_cache()
     d = os.path.join(WORK, "cache", repo_hash(), *[str(p) for p in parts])
     os.makedirs(d, exist_ok=True)
     return d
